@@ -151,12 +151,13 @@ func XMLDoc(r *rand.Rand) (doc string, toks []XTok) {
 		root := xmlName(r)
 		body := " " + root
 		if r.Intn(2) == 0 {
-			body += Pick(r, []string{" PUBLIC \"-//W3C//DTD X 1.0//EN\" \"http://x/y>z\"", " PUBLIC \"-//O'Neil//DTD r//EN\" \"x\"", " SYSTEM \"it's>here]\""})
+			body += Pick(r, []string{" PUBLIC \"-//W3C//DTD X 1.0//EN\" \"http://x/y>z\"", " PUBLIC \"-//O'Neil//DTD r//EN\" \"x\"", " SYSTEM \"it's>here]\"", " SYSTEM 'x>y\"z'", " PUBLIC '-//A//B' 'u[v]>w'"})
 		}
 		if r.Intn(2) == 0 {
 			body += " ["
 			for j := r.Intn(3); j >= 0; j-- {
-				body += Pick(r, []string{"<!ENTITY a \"b>c]d\">", "<!ELEMENT x (#PCDATA)>", "<!ATTLIST x y CDATA #IMPLIED>", "\n", " ", "<!ENTITY % p \"q\">", "<!ENTITY w \"Writer's name\">", "<!ENTITY q \"'>]'\">"})
+				body += Pick(r, []string{"<!ENTITY a \"b>c]d\">", "<!ELEMENT x (#PCDATA)>", "<!ATTLIST x y CDATA #IMPLIED>", "\n", " ", "<!ENTITY % p \"q\">", "<!ENTITY w \"Writer's name\">", "<!ENTITY q \"'>]'\">",
+					"<!ENTITY rb ']'>", "<!ENTITY lb '['>", "<!ENTITY dq '\"'>", "<!ENTITY gt '>'>", "<!-- a ] comment -->", "<!-- see [1 -->", "<!-- it's \"odd\" > -->", "<!ENTITY sq \"'\">"})
 			}
 			body += "]"
 		}
